@@ -11,6 +11,8 @@ Parts (spec["part"]):
  d4  requests carrying a later-version field are not answered with success
  e   DiscoverVersions (generated client lists) vs Query probes under each version
  f   Query: every advertised operation is available under that version
+ g   several requests of different versions on ONE connection: each answer is in the version of
+     its own request (header, tags, bytes equal to the answer on a connection of its own)
 Every server response seen in any part goes through the later-version tag check (d2).
 """
 import copy
@@ -1282,7 +1284,67 @@ def run_f(spec):
 
 
 # ====================================================================== dispatch
-RUNNERS = {"a": run_a, "b": run_b, "c1": run_c1, "c2": run_c2, "d1": run_d1, "d3": run_d3,
+# ------------------------------------------------------------------ g: versions on one connection
+G_OPS = ["GetAttributes", "GetAttributeList", "Get", "Locate", "Query", "DiscoverVersions"]
+
+
+def cases_g():
+    """Every ordered pair of supported versions on ONE connection: a first request under v1, then
+    each read-only operation under v2 (and a third request under v1 again)."""
+    out = []
+    for v1 in H.VERSIONS:
+        for v2 in H.VERSIONS:
+            for op in G_OPS:
+                if op == "DiscoverVersions" and min(tuple(v1), tuple(v2)) < (1, 1):
+                    continue
+                out.append({"part": "g", "v1": list(v1), "v2": list(v2), "op": op})
+    return out
+
+
+def run_g(spec):
+    idx = _idx()
+    v1, v2 = tuple(spec["v1"]), tuple(spec["v2"])
+    first = {"v": list(v1), "items": [valid_item("GetAttributes", idx)]}
+    second = {"v": list(v2), "items": [valid_item(spec["op"], idx)]}
+    third = {"v": list(v1), "items": [valid_item(spec["op"], idx)]}
+    frames = [H.encode_request(first), H.encode_request(second), H.encode_request(third)]
+    server, _ = store.fresh_server()
+    b = []
+    try:
+        H.CLOCK.tick()
+        conn, errs = server.session(b"".join(frames), cn="alice")
+        sent = list(conn.sent)
+        if errs or len(sent) != 3:
+            return [], False, ["g:session-irregular"]       # C12 judges the message loop
+        # reference: the same request alone on a connection of its own (same store, same clock)
+        alone = []
+        for fr in frames[1:]:
+            c2, e2 = server.session(fr, cn="alice")
+            alone.append(c2.sent[0] if c2.sent and not e2 else None)
+        for k, (v, fr) in enumerate(((v2, frames[1]), (v1, frames[2]))):
+            resp = sent[k + 1]
+            what = "response-to-request-%d-of-a-connection" % (k + 2)
+            try:
+                got = R.response_version(resp)
+            except Exception as e:
+                b.append(("C16|echo|connection|response-not-parseable", "%s: %r" % (what, e)))
+                continue
+            if tuple(got) != tuple(v):
+                b.append(("C16|echo|connection|header-version-differs",
+                          "%s under KMIP %s (earlier request on the connection: %s) says %s"
+                          % (what, S.vs(v), S.vs(v1 if k == 0 else v2), S.vs(got))))
+            b.extend(tag_problems(resp, v, "response|" + spec["op"]))
+            if alone[k] is not None and alone[k] != resp:
+                b.append(("C16|echo|connection|encoding-depends-on-earlier-request-version|" + spec["op"],
+                          "%s under KMIP %s differs from the answer to the same request on a "
+                          "connection of its own (earlier request on this connection: KMIP %s)"
+                          % (what, S.vs(v), S.vs(v1 if k == 0 else v2))))
+    finally:
+        server.close()
+    return b, v1 != v2, ["g:%s" % ("same-version" if v1 == v2 else "version-change")]
+
+
+RUNNERS = {"a": run_a, "g": run_g, "b": run_b, "c1": run_c1, "c2": run_c2, "d1": run_d1, "d3": run_d3,
            "d4": run_d4, "e": run_e, "e-probe": run_e_probe, "f": run_f}
 
 
@@ -1300,7 +1362,7 @@ def replay(spec):
 
 def grid_cases():
     from vlib import c16_client
-    cases = cases_a() + cases_b() + cases_c1() + cases_c2() + cases_d4() + cases_f()
+    cases = cases_a() + cases_b() + cases_c1() + cases_c2() + cases_d4() + cases_f() + cases_g()
     cases += c16_client.cases()
     cases += [{"part": "e-probe", "v": list(v)} for v in _POOL]
     return cases
@@ -1372,7 +1434,8 @@ def run(ctx):
         "d2": ("shared request menus x 6 versions, " + ("every 8th entry (offset = seed)" if stride > 1
                                                          else "complete")),
         "e": "NOT exhaustive: %d Hypothesis client lists" % ne,
-        "f": "6 versions x %d function sets x advertised operations" % len(F_FUNCTIONS)}
+        "f": "6 versions x %d function sets x advertised operations" % len(F_FUNCTIONS),
+        "g": "6 x 6 ordered version pairs x %d read-only operations on one connection" % len(G_OPS)}
     col.extra["boundary_cells_per_part"] = {k.split(":", 1)[1]: col.extra.pop(k)
                                             for k in sorted(col.extra) if k.startswith("boundary_cells:")}
     col.extra["boundary_cells_distinct"] = len(col.nontrivial)
